@@ -194,6 +194,13 @@ theorem u32BEAt_eq (b : Bytes) (i : Nat) (h : i + 4 ≤ b.length) :
     u8At_of_lt b (i + 2) (by omega), u8At_of_lt b (i + 3) (by omega), fromBE, fromLE]
   omega
 
+/-- The ONE place where the transcribed byte order of the chunk length meets the model's
+`u32::from_be_bytes`: it checks only while `chunkLengthOrder = .big`. -/
+theorem chunkLenAt_eq (b : Bytes) (i : Nat) (h : i + 4 ≤ b.length) :
+    chunkLenAt chunkLengthOrder b i = some (fromBE ((b.drop i).take 4)) := by
+  simp only [chunkLenAt, chunkLengthOrder]
+  exact u32BEAt_eq b i h
+
 theorem fromBE4_lt (b : Bytes) (i : Nat) : fromBE ((b.drop i).take 4) < 2 ^ 32 := by
   unfold fromBE
   have h := fromLE_lt ((b.drop i).take 4).reverse
@@ -259,7 +266,7 @@ theorem chunkWalk_sound (p : Profile) (buf : Bytes) :
       cases h
       exact ⟨by simp, by intro s hs; cases hs⟩
     · rw [chunkWalk_step p buf k off (by omega) hlen h64] at h
-      have hbe := u32BEAt_eq buf (off - 4) (by omega)
+      have hbe := chunkLenAt_eq buf (off - 4) (by omega)
       generalize fromBE ((buf.drop (off - 4)).take 4) = n at h hbe
       by_cases h1 : off < n + 8
       · rw [if_pos h1] at h
@@ -299,7 +306,7 @@ theorem chunkWalk_complete (p : Profile) (buf : Bytes) :
     | zero => omega
     | succ k =>
       rw [chunkWalk_step p buf k off (by omega) hlen h64]
-      rw [u32BEAt_eq buf (off - 4) (by omega)] at hbe
+      rw [chunkLenAt_eq buf (off - 4) (by omega)] at hbe
       cases hbe
       generalize fromBE ((buf.drop (off - 4)).take 4) = n at *
       rw [if_neg (by omega)]
